@@ -637,7 +637,7 @@ pub fn plan(prop: &str, tier: &str) -> Option<Plan> {
                 bounds = json!({"E1": "all predicates (incl. 2^k subsets of class representatives) at every point of the growth path to N=64 (4 hashers) / 130, and structural predicates after <=1 deviation up to N=18", "E2": "fixpoint u=3"});
             } else {
                 for &hk in &HS4 {
-                    s.push(e1(prop, "u32", hk, 0, a, &["cursor"], 36, 2, 1, "chk", 1200.0));
+                    s.push(e1(prop, "u32", hk, 0, a, &["cursor"], if hk == H_LOW || hk == H_CONST { 28 } else { 36 }, 2, 1, "chk", 1200.0));
                     s.push(e1(prop, "tk", hk, 0, a, &["cursor"], 31, 2, 1, "chk", 1200.0));
                 }
                 s.push(e1(prop, "u32", H_GOOD, 0, "pred", &["cursor"], 300, 1, 0, "chk", 600.0));
@@ -737,7 +737,7 @@ pub fn plan(prop: &str, tier: &str) -> Option<Plan> {
             } else {
                 for &hk in &HS4 {
                     s.push(e1(prop, "u32", hk, 0, "ch3", &fl, 130, 1, 0, "chk", 900.0));
-                    s.push(e1(prop, "u32", hk, 0, "mut1+shape/ch3", &fl, 24, 2, 1, "chk", 1500.0));
+                    s.push(e1(prop, "u32", hk, 0, "mut1+shape/ch3", &fl, if hk == H_LOW || hk == H_CONST { 16 } else { 24 }, 2, 1, "chk", 1500.0));
                     s.push(e1(prop, "tk", hk, 0, "ch3", &fl, 64, 1, 0, "chk", 900.0));
                     s.push(e1(prop, "pod", hk, 0, "ch3", &fl, 64, 1, 0, "chk", 900.0));
                 }
@@ -976,7 +976,7 @@ pub fn plan(prop: &str, tier: &str) -> Option<Plan> {
                 bounds = json!({"E5": "rayon stand-in: every script with <=3 splits and every fork order, for 12 parallel map calls at every state of a family of <=160 states (growth path to N=130 + post-deviation states; old tables of 1-8 groups), and 13 parallel set calls on every ordered pair of <=24 set states x 3 key-overlap patterns", "conformance": "the same bodies on the real rayon, thread pools of 1..16 threads (sampled; not the deciding step)"});
             } else {
                 for &hk in &HS4 {
-                    s.extend(mk("map", "u32", hk, 130, 200, 5, 6, "par", 1500.0));
+                    s.extend(mk("map", "u32", hk, 130, if hk == H_CONST || hk == H_LOW { 100 } else { 200 }, 5, 6, "par", 1500.0));
                 }
                 s.extend(mk("map", "tk", H_GOOD, 64, 120, 4, 2, "par", 1500.0));
                 s.extend(mk("set", "u32", H_GOOD, 64, 60, 4, 8, "par", 1500.0));
